@@ -18,6 +18,29 @@ impl<A> SmallVec<A> {
     }
     pub fn is_empty(&self) -> bool { self.n == 0 }
     pub fn len(&self) -> usize { self.n }
+    pub fn truncate(&mut self, k: usize) { if k < self.n { self.n = k; } }
+    pub fn clear(&mut self) { self.n = 0; }
+    pub fn pop(&mut self) -> Option<EventRecord> { if self.n == 0 { None } else { self.n -= 1; Some(self.buf[self.n]) } }
+    pub fn first(&self) -> Option<&EventRecord> { if self.n == 0 { None } else { Some(&self.buf[0]) } }
+    pub fn last(&self) -> Option<&EventRecord> { if self.n == 0 { None } else { Some(&self.buf[self.n - 1]) } }
+    pub fn iter(&self) -> std::slice::Iter<'_, EventRecord> { self.buf[..self.n].iter() }
+    pub fn remove(&mut self, idx: usize) -> EventRecord {
+        assert!(idx < self.n);
+        let e = self.buf[idx];
+        let mut i = idx;
+        while i + 1 < 4 { if i + 1 < self.n { self.buf[i] = self.buf[i + 1]; } i += 1; }
+        self.n -= 1;
+        e
+    }
+    pub fn retain<F: FnMut(&mut EventRecord) -> bool>(&mut self, mut f: F) {
+        let mut w = 0;
+        let mut i = 0;
+        while i < 4 {
+            if i < self.n { let mut e = self.buf[i]; if f(&mut e) { self.buf[w] = e; w += 1; } }
+            i += 1;
+        }
+        self.n = w;
+    }
     /// `drain(..k)`: remove the first k elements (the only form the sliced code uses)
     pub fn drain(&mut self, r: std::ops::RangeTo<usize>) {
         let k = r.end;
